@@ -118,14 +118,17 @@ class SimWriter:
         try:
             if self.buf and self.fs.stats is not None and not self.raw:
                 self.fs.stats["buffered_only"] += 1
-            self.flush()
             if f and f["kind"] == "close":
+                # the final flush fails: what was still buffered never reaches the file
                 self.failed = True
+                lost = len(self.buf)
+                self.buf = bytearray()
                 s = seams.SIM
                 if s is not None:
                     s.fire("fs_close_" + f["errno"])
-                    s.trace("fs.close_error", self.key, f["errno"])
+                    s.trace("fs.close_error", self.key, f["errno"], lost)
                 raise _oserror(f["errno"], self.key)
+            self.flush()
         finally:
             s = seams.SIM
             if s is not None:
@@ -190,6 +193,7 @@ class SimPath:
         return hash(self._p)
 
     def resolve(self, strict=False):
+        # the simulated working directory is the root: an absolute path names the same file
         return SimPath("/" + str(self._p).lstrip("/"))
 
     def absolute(self):
@@ -197,7 +201,7 @@ class SimPath:
 
     # -- file system behaviour -----------------------------------------------------------
     def _key(self):
-        return str(self._p)
+        return str(self._p).lstrip("/") or "/"
 
     def exists(self):
         return self._key() in fs().files
